@@ -29,7 +29,7 @@ for p in props:
     })
 m = {
     "version": 1,
-    "setup_cmd": "/verif/tools/mkcoqproject.sh && cd /verif/coq && timeout 3000 make -j16 && /verif/tools/gate.sh",
+    "setup_cmd": "/verif/tools/setup.sh",
     "hooks": {"guard": "E2NIEE_PANDAPOWER_VERIF",
               "enable": "export E2NIEE_PANDAPOWER_VERIF=1 (exported by ./check; no source hook is present, fault injection is external via monkeypatch/sys.settrace)",
               "baseline_off_cmd": baseline.replace("--junitxml=<file>", "--junitxml=/tmp/verif_baseline.junit.xml"),
